@@ -230,4 +230,55 @@ theorem readsAs_char (c : CP) (h1 : c ≠ 39) (h2 : c ≠ 92) (h3 : c < 128) (re
   simp only [hstr, hch]
   rfl
 
+/-! ## escaped character literals and `\u{…}` -/
+
+/-- a character literal written with a complete one-byte escape sequence, in front of anything -/
+theorem readsAs_char_esc (e : Line) (b : Nat) (he : IsEsc e [b]) (rest : Line) : ReadsAs (39 :: (e ++ [39])) (.chr b) rest := by
+  obtain ⟨⟨r, hr⟩, hesc⟩ := he
+  refine ⟨by simp, fun c' r' h => (by injection h with h1 _; rw [← h1]; decide +kernel),
+    fun r' h => (by simp only [List.cons_append] at h; injection h with h1 _; exact absurd h1 (by decide)), ?_⟩
+  have ht : (39 :: (e ++ [39])) ++ rest = 39 :: (e ++ 39 :: rest) := by simp
+  unfold readToken
+  rw [ht, readSymbol_quote 39 _ (Or.inr rfl)]
+  simp only [readIdent_quote 39 _ (Or.inr rfl), readInt_quote 39 _ (Or.inr rfl)]
+  have hstr : readString (39 :: (e ++ 39 :: rest)) = .none := rfl
+  have hch : readChar (39 :: (e ++ 39 :: rest)) = .ok (.chr b) (39 :: (e ++ [39])).length := by
+    unfold readChar
+    subst hr
+    have h1 := hesc (39 :: rest)
+    simp only [List.cons_append] at h1 ⊢
+    simp only [h1]
+    have hd : (92 :: (r ++ 39 :: rest)).drop (92 :: r).length = 39 :: rest := by
+      have := List.drop_left' (l₁ := 92 :: r) (l₂ := 39 :: rest) rfl
+      simpa using this
+    simp only [List.length_cons] at hd
+    simp only [List.length_cons, List.length_append, List.length_nil, hd]
+  simp only [hstr, hch]
+
+theorem takeWhile_hex (hs rest : Line) (hh : ∀ c ∈ hs, (hexVal c).isSome = true) :
+    (hs ++ 125 :: rest).takeWhile (fun c => (hexVal c).isSome) = hs := by
+  induction hs with
+  | nil =>
+    have : (hexVal 125).isSome = false := by decide +kernel
+    simp [this]
+  | cons a hs ih =>
+    simp only [List.cons_append, List.takeWhile_cons, hh a List.mem_cons_self, if_true]
+    rw [ih (fun c hc => hh c (List.mem_cons_of_mem _ hc))]
+
+/-- `\u{h…}`: at least one hex digit, a scalar value, encoded as UTF-8 -/
+theorem isEsc_unicode (hs : Line) (bs : List Nat) (hne : hs ≠ []) (hh : ∀ c ∈ hs, (hexVal c).isSome = true)
+    (hcp : ofDigits 16 (hs.filterMap hexVal) ≤ 0x10FFFF) (hu : utf8 (ofDigits 16 (hs.filterMap hexVal)) = some bs) :
+    IsEsc (92 :: 117 :: 123 :: (hs ++ [125])) bs := by
+  refine ⟨⟨_, rfl⟩, fun rest => ?_⟩
+  have ht : (92 :: 117 :: 123 :: (hs ++ [125])) ++ rest = 92 :: 117 :: 123 :: (hs ++ 125 :: rest) := by simp
+  rw [ht]
+  unfold readEscape
+  simp only [takeWhile_hex hs rest hh, List.drop_left' rfl]
+  have hemp : hs.isEmpty = false := by cases hs with | nil => exact absurd rfl hne | cons _ _ => rfl
+  have hle : ¬ ofDigits 16 (hs.filterMap hexVal) > 0x10FFFF := by omega
+  simp only [hemp, Bool.false_eq_true, if_false, hle, hu]
+  simp only [List.length_cons, List.length_append, List.length_nil]
+  congr 1
+  omega
+
 end HidVerif.Hid.Lex
